@@ -15,6 +15,7 @@ import (
 	"strconv"
 
 	"github.com/mazrean/kessoku/internal/kessoku"
+	"github.com/mazrean/kessoku/internal/migrate"
 )
 
 type node = []any
@@ -147,7 +148,18 @@ type result struct {
 	Vars    []map[string]any `json:"vars"`
 }
 
+func lastElem(path string) string {
+	for i := len(path) - 1; i >= 0; i-- {
+		if path[i] == '/' {
+			return path[i+1:]
+		}
+	}
+	return path
+}
+
 func main() {
+	// usage: veriftyperender [migrate]   (which of the two type-spelling functions is driven)
+	useMigrate := len(os.Args) > 1 && os.Args[1] == "migrate"
 	var srcs []string
 	if err := json.NewDecoder(os.Stdin).Decode(&srcs); err != nil {
 		panic(err)
@@ -179,10 +191,26 @@ func main() {
 		sort.Strings(names)
 		for _, n := range names {
 			t := pkg.Scope().Lookup(n).Type()
+			v := map[string]any{"name": n, "type": tyTree(t)}
+			if useMigrate {
+				tc := migrate.NewTypeConverter(pkg)
+				e := tc.TypeToExpr(t)
+				v["expr"] = exTree(e)
+				al := map[string]string{}
+				for _, sp := range tc.Imports() {
+					if sp.Name != "" {
+						al[sp.Path] = sp.Name
+					} else {
+						al[sp.Path] = lastElem(sp.Path)
+					}
+				}
+				v["imports"] = al
+				r.Vars = append(r.Vars, v)
+				continue
+			}
 			pool := kessoku.NewVarPool()
 			imports := map[string]*kessoku.Import{}
 			e, err := kessoku.VerifCreateASTTypeExpr("example.com/p", t, pool, imports)
-			v := map[string]any{"name": n, "type": tyTree(t)}
 			if err != nil {
 				v["error"] = err.Error()
 			} else {
